@@ -2,6 +2,7 @@ package vsim
 
 import (
 	"golang.org/x/sys/unix"
+	"sort"
 	"verif/sim/runner"
 	"verif/sim/vsys"
 )
@@ -206,6 +207,15 @@ func Generate(seed uint64, prop, tier string) *Plan {
 	c.RcvBuf = r.Pick(0, 1024, 4096, 65536, 262144)
 	c.Ticker = r.Chance(1, 4)
 	c.TickMs = r.Pick(1, 10, 100, 1000)
+	if c.Ticker && r.Chance(2, 3) {
+		// let simulated time pass during the workload, so that OnTick runs again
+		// (and may ask for a shutdown) while connections are busy
+		c.TickMs = r.Pick(1, 10, 100)
+		for n := r.Range(1, 6); n > 0; n-- {
+			c.TickAt = append(c.TickAt, r.Pick(3, 10, 30, 60, 150, 400, 1000))
+		}
+		sort.Ints(c.TickAt)
+	}
 	c.Strategy = []string{"random", "random", "pct", "starve"}[r.Intn(4)]
 	c.Quantum = r.Pick(1, 1, 3, 10, 40)
 	c.PCTDepth = r.Range(1, 4)
@@ -396,6 +406,19 @@ func Generate(seed uint64, prop, tier string) *Plan {
 				// the framework dials (or is handed) a remote address that an accepted
 				// peer also has: the hash policy must send both to the same loop
 				cp.AddrOf = 1 + r.Intn(nconn)
+			}
+			if c.Network != "unix" && r.Chance(1, 4) {
+				// a connected UDP socket registered with (or dialled by) a serving engine
+				cp.UDP = true
+				if r.Chance(1, 3) {
+					cp.OpenReply = r.Pick(1, 100, 1400)
+				}
+				for j := r.Range(1, 3); j > 0; j-- {
+					cp.Peer = append(cp.Peer, PeerOp{K: "send", N: r.Pick(1, 100, rb, rb+1, 1400)})
+					cp.Traffic = append(cp.Traffic, TStep{W: genUDPReplies(r)})
+				}
+				p.Conns = append(p.Conns, cp)
+				continue
 			}
 			for j := r.Range(0, 3); j > 0; j-- {
 				n := pickSize(r, rb)
